@@ -149,6 +149,35 @@ have [uB _] := mulmx1_unit E; split=> //.
 by rewrite -[LHS]mulmx1 -E mulmxA (mulVmx uB) mul1mx.
 Qed.
 
+(* symmetric positive definite blocks give a symmetric positive definite matrix *)
+Lemma spd_block_diag2 m n (A : 'M[F]_m) (D : 'M[F]_n) :
+  spd A -> spd D -> spd (block_mx A 0 0 D).
+Proof.
+move=> [sA pA] [sD pD]; split.
+  by rewrite /sym tr_block_mx !trmx0 sA sD.
+move=> x xn0; rewrite -[x]hsubmxK /qf.
+set xl := lsubmx x; set xr := rsubmx x.
+rewrite mul_row_block !mulmx0 addr0 add0r tr_row_mx mul_row_col mxE.
+have xlr : (xl != 0) || (xr != 0).
+  apply: contraR xn0; rewrite negb_or !negbK => /andP [/eqP El /eqP Er].
+  by rewrite -[x]hsubmxK -/xl -/xr El Er row_mx0.
+have nnA : 0 <= qf A xl by case: (eqVneq xl 0) => [E|/pA/ltW //]; rewrite E qf0.
+have nnD : 0 <= qf D xr by case: (eqVneq xr 0) => [E|/pD/ltW //]; rewrite E qf0.
+case/orP: xlr => [/pA pos|/pD pos].
+- exact: ltr_paddr.
+- exact: ltr_paddl.
+Qed.
+
+Lemma BD_spd nb (G : nat -> 'M[F]_bs) :
+  (forall i, (i < nb)%N -> spd (G i)) -> spd (BD nb G).
+Proof.
+elim: nb G => [|nb IH] G sG.
+  split; first by apply/matrixP; case.
+  by move=> x; rewrite [x]thinmx0 eqxx.
+rewrite BD_S; apply: spd_block_diag2; first exact: sG.
+by apply: IH => i lt; exact: sG.
+Qed.
+
 End BlockDiag.
 
 (* ------------------------------------------------------------------ *)
@@ -466,6 +495,27 @@ Lemma uvr_eq_direct_shared (R : M O bs bs) :
 Proof.
 move=> uR uS i ib; apply: (uvr_eq_direct bs0) => // t tn.
 by rewrite blk_shared.
+Qed.
+
+(* the common use (V = U^T, SPD blocks): every premise is derived *)
+Lemma assembled_sym_factor_spd rc (R : M O bs rc) :
+  (forall t, (t < nb)%N -> spd (blk (tr:=tr) (sq:=sq) (eg:=eg) R t)) ->
+  spd (assembled_S (O:=O) U (mtr (m:=d) (n:=k) U) R : 'M[F]_d).
+Proof.
+move=> sB; rewrite /assembled_S /= (blockdiag_BD (tr:=tr) (sq:=sq) (eg:=eg) nb bs0 R).
+apply: psd_spd_add; last exact: BD_spd.
+rewrite -[U in U *m _]mulmx1; apply: psd_congr; apply: spd_psd; exact: spd1.
+Qed.
+
+Lemma uvr_eq_direct_sym_factor rc (R : M O bs rc) :
+  (forall t, (t < nb)%N -> spd (blk (tr:=tr) (sq:=sq) (eg:=eg) R t)) ->
+  forall i, (i < b)%N ->
+    List.nth i (log_density_uvr (O:=O) input mean U (mtr (m:=d) (n:=k) U) R) 0 =
+    log_density (O:=O) (mcol (O:=O) i input) mean (assembled_S (O:=O) U (mtr (m:=d) (n:=k) U) R).
+Proof.
+move=> sB i ib; apply: (uvr_eq_direct bs0) => // [t tn|].
+- exact: spd_unit (sB t tn).
+- exact: spd_unit (assembled_sym_factor_spd sB).
 Qed.
 
 (* what "assembled" means, entry by entry *)
